@@ -60,6 +60,35 @@ def family_cases(seed, n):
     return out
 
 
+HAND_TEXTS = [
+    # unsized last field (slices, str, trait objects): every trait that can be educed on such a struct
+    ("dst-slice", "#[derive(::educe::Educe)]\n#[educe(Debug, PartialEq, Eq, PartialOrd, Ord, Hash)]\npub struct Ty {\n    pub a: u8,\n    pub b: [u8],\n}\n"),
+    ("dst-str-tuple", "#[derive(::educe::Educe)]\n#[educe(Debug(named_field = false), PartialEq, Hash)]\npub struct Ty {\n    pub a: u8,\n    pub b: str,\n}\n"),
+    ("dst-dyn-bare", "#[derive(::educe::Educe)]\n#[educe(Debug(name = false))]\npub struct Ty {\n    pub a: u8,\n    pub b: dyn ::core::fmt::Debug,\n}\n"),
+    ("dst-tuple-struct", "#[derive(::educe::Educe)]\n#[educe(Debug, PartialEq, PartialOrd, Hash)]\npub struct Ty(pub u8, pub [u16]);\n"),
+    ("dst-method", "pub fn m(_v: &[u8], f: &mut ::core::fmt::Formatter<'_>) -> ::core::fmt::Result { f.write_str(\"m\") }\n"
+                   "#[derive(::educe::Educe)]\n#[educe(Debug)]\npub struct Ty {\n    pub a: u8,\n    #[educe(Debug(method(m)))]\n    pub b: [u8],\n}\n"),
+    # lints attached to a field must not fire on generated code
+    ("deprecated-field", "#[derive(::educe::Educe)]\n#[educe(Default(new), Debug, Clone, PartialEq, Hash, PartialOrd)]\npub struct Ty {\n"
+                         "    #[deprecated]\n    #[educe(Default = 5)]\n    pub x: u8,\n    #[deprecated]\n    pub y: u8,\n}\n"),
+    ("deprecated-variant-field", "#[derive(::educe::Educe)]\n#[educe(Default, Debug, Clone, PartialEq)]\npub enum Ty {\n    #[educe(Default)]\n    V {\n"
+                                 "        #[deprecated]\n        #[educe(Default = 5)]\n        x: u8,\n        #[deprecated]\n        y: u8,\n    },\n    W,\n}\n"),
+    # field types that differ only in lifetimes
+    ("two-lifetimes-one-parameter", "#[derive(::educe::Educe)]\n#[educe(Debug, Clone, PartialEq, Eq, PartialOrd, Ord, Hash)]\n"
+                                    "pub struct Ty<'a, 'b, T> {\n    pub a: &'a T,\n    pub b: &'b T,\n}\n"),
+    ("two-lifetimes-nested", "#[derive(::educe::Educe)]\n#[educe(Debug, Clone, PartialEq, Hash)]\npub enum Ty<'a, 'b, T, U> {\n"
+                             "    A(::std::vec::Vec<&'a T>, U),\n    B { x: ::std::vec::Vec<&'b T>, y: &'a U, z: &'b U },\n}\n"),
+    ("two-lifetimes-phantom", "#[derive(::educe::Educe)]\n#[educe(Debug, PartialEq, Default)]\npub struct Ty<'a, 'b, T>(\n"
+                              "    pub ::core::marker::PhantomData<&'a T>,\n    pub ::core::marker::PhantomData<&'b T>,\n    pub ::core::option::Option<&'a T>,\n);\n"),
+    ("two-lifetimes-no-parameter", "#[derive(::educe::Educe)]\n#[educe(Debug, Clone, PartialEq, Eq, PartialOrd, Ord, Hash)]\n"
+                                   "pub struct Ty<'a, 'b> {\n    pub a: &'a str,\n    pub b: &'b str,\n}\n"),
+]
+
+
+def hand_cases():
+    return [("hand_%s" % cid.replace("-", "_"), TextTd("hand/" + cid, text), text) for cid, text in HAND_TEXTS]
+
+
 def norm_msg(m):
     m = re.sub(r"`[^`]*`", "`_`", m)
     m = re.sub(r"\d+", "N", m)
@@ -114,7 +143,7 @@ def run_cases(chk, cases, name="c01", full=False):
     # D2 accept/refuse
     # (definitions written through macro_rules!, or followed by a hand-written impl, cannot be fed to the in-process
     # expansion, which takes one item: rustc is their only judge)
-    d2 = B.run_inproc([(cid, text.replace("::educe::Educe", "Educe")) for cid, td, text in cases if "macro_rules!" not in text and "\nimpl" not in text],
+    d2 = B.run_inproc([(cid, text.replace("::educe::Educe", "Educe")) for cid, td, text in cases if "macro_rules!" not in text and "\nimpl" not in text and not text.startswith("pub fn ")],
                       items=False, full=full)
     nb = max(1, min(NCPU, len(cases) // 40 or 1))
     shards = H.shard(cases, nb)
@@ -166,6 +195,8 @@ def main(tier, seed, scale=1.0):
         cases = gen_cases(seed * 1000003 + k, min(batch, n - k))
         cases = [("b%d_%s" % (k, cid), td, text) for cid, td, text in cases]
         cases += [("b%d_%s" % (k, cid), td, text) for cid, td, text in family_cases(seed * 1000003 + k, len(cases) // 16)]
+        if k == 0:
+            cases += hand_cases()
         run_cases(chk, cases)
         k += batch
     chk.extra["d1_crates"] = (n + batch - 1) // batch
